@@ -297,9 +297,10 @@ def route_overlaps(adb):
     return out
 
 
-def match_known(R, o, adb, why):
+def match_known(R, o, adb, why, also=None):
     """known_findings.json entries for C08; anything else stays a violation."""
-    for f in R.known_findings():
+    for f in ([x for x in R.kf.get("findings", []) if x["property"] == "C08" and x.get("status") == "known" and also in x.get("also", [])]
+              if also else R.known_findings()):
         if f["id"] == "C08-route-specificity-overlap":
             ov = route_overlaps(adb)
             if o["rc"] == 0 and not o["panicked"] and ov and all((not same) and (not shape) for _, _, same, shape in ov) \
@@ -310,6 +311,13 @@ def match_known(R, o, adb, why):
             if not lexical and dynamic and (o["panicked"] or o["rc"] == 0) and not error_reports(o["out"]) and not route_overlaps(adb):
                 return f
     return None
+
+
+def match_known_for(R, o):
+    """used by C09: a planted program whose crash is explained by a C08 finding that lists C09 under `also`."""
+    if not o["klass"].startswith("planted:") or not o.get("spec"):
+        return None
+    return match_known(R, o, gen_planted.adb_of(o["spec"]), None, also=R.prop)
 
 
 # ---- replay: one program of a replay file through the current pavexc ----------------------------------
